@@ -5,6 +5,7 @@ open Qvnt
 #print axioms C05_normalize_above_one
 #print axioms C05_collapse
 #print axioms C05_new
+#print axioms C05_possible
 #print axioms C05_measure
 #print axioms C05_measure_floor
 #print axioms C05_reset
@@ -16,7 +17,9 @@ open Qvnt
 #print axioms C05_tensor
 #print axioms C05_tensor_inv
 #print axioms C05_reachable
+#print axioms C05_reachable_unit
 #print axioms C05_inside
 #print axioms C05_reachable_tensor
+#print axioms C05_reachable_tensor_unit
 #print axioms C05_probs
 #print axioms C05_probs_of_pos
